@@ -113,15 +113,16 @@ def _main_check(ctx: Ctx) -> None:
               function=pm.qualname, construct="file resolution not taken from the file's ticks_per_beat", message="", file=pm.file, node=pm.node)
 
     # --- ROUTE
-    cur = None
-    for s in track_loop.body:
-        if isinstance(s, ast.Assign) and isinstance(s.targets[0], ast.Name) and isinstance(s.value, ast.Constant) and s.value.value is None:
-            cur = s.targets[0].id
-    meta = None
-    for s in fi.node.body:
-        if isinstance(s, ast.Assign) and isinstance(s.targets[0], ast.Name) and isinstance(s.value, ast.Call) and isinstance(s.value.func, ast.Name) \
-                and s.value.func.id == "Sequence" and "meta" in s.targets[0].id:
-            meta = s.targets[0].id
+    # roles by use: the track's own sequence receives the NOTE_ON events, the meta sequence the TIME_SIGNATURE events
+    cur = meta = None
+    for c_ in ast.walk(track_loop):
+        if isinstance(c_, ast.Call) and call_method(c_)[1] in ("add_absolute_message", "add_message") and isinstance(call_method(c_)[0], ast.Name) and c_.args \
+                and isinstance(c_.args[0], ast.Call) and src(c_.args[0].func) == "Message":
+            T_ = enum_member(kwarg(c_.args[0], "message_type"), "MessageType")
+            if T_ == "NOTE_ON" and cur is None:
+                cur = call_method(c_)[0].id
+            if T_ == "TIME_SIGNATURE" and meta is None:
+                meta = call_method(c_)[0].id
     if cur is None or meta is None:
         raise AnalysisError(f"{FN}: current/meta sequence variables not found")
     expect = {"NOTE_ON": cur, "NOTE_OFF": cur, "TIME_SIGNATURE": meta, "KEY_SIGNATURE": meta, "CONTROL_CHANGE": meta, "PROGRAM_CHANGE": cur}
